@@ -7,6 +7,7 @@ Stub: the peer (built on ref/p2p, ref/merkle, ref/txmodel), the transport, clock
 
 Serves C19 (oracles P1..P4) and C17 (oracles M1..M3).
 """
+import io
 import struct
 
 import buidl.network as bn
@@ -578,7 +579,7 @@ class Peer:
                 hs.append(h)
                 prev = rp.header_hash(h)
             return [(b"headers", rp.enc_headers(hs))]
-        if op in ("send_version", "raw_send"):
+        if op in ("send_version", "raw_send", "header_edits"):
             return []
         raise ValueError(op)
 
@@ -1179,6 +1180,52 @@ def run_step(sess, cl, peer, step, prop):
         if rp.enc_cfcheckpt(obj.filter_type, obj.stop_hash, obj.filter_headers) != payload:
             fail("C19", "P3", "cfcheckpt_fields", "CFCheckPointMessage fields do not re-encode to the received payload")
         return
+    if op == "header_edits":
+        # a header object the client holds (decoded from the peer's bytes) goes through a history of observations and field edits,
+        # as a header-building / nonce-grinding caller does; after every edit its encoding, hash and proof-of-work verdict must be
+        # those of its CURRENT field values (ref model), and decoding the encoding gives the same values back
+        h80 = chain["blocks"][step["blk"] % len(chain["blocks"])]["header"]
+        blk = Block.parse_header(io.BytesIO(h80))
+        m = rp.dec_header(h80)
+        r = plan_rng(step["pseed"], "he")
+        for act in step["acts"]:
+            if act == "obs":
+                want = rp.header80(m["version"], m["prev"], m["root"], m["time"], m["bits"], m["nonce"])
+                tr.oracle("P2_header_history")
+                got = blk.serialize()
+                if got != want:
+                    fail("C19", "P2", "header_encoding_stale", f"header object with fields {m['version']:#x}/{m['time']}/{m['bits'].hex()}/{m['nonce'].hex()} serialises to {got.hex()}")
+                elif blk.hash() != rp.header_hash(want) or blk.id() != rp.header_hash(want).hex():
+                    fail("C19", "P2", "header_hash_stale", "hash()/id() of the header object is not the hash of its current fields")
+                else:
+                    b2 = Block.parse_header(io.BytesIO(got))
+                    if (b2.version, b2.prev_block, b2.merkle_root, b2.timestamp, b2.bits, b2.nonce) != (m["version"], m["prev"], m["root"], m["time"], m["bits"], m["nonce"]):
+                        fail("C19", "P3", "header_decode_fields", "decoding the header's encoding gives other field values")
+                tr.oracle("M3_header_history")
+                if blk.check_pow() != rp.pow_ok(want):
+                    fail("C17", "M3", "pow_verdict_after_edit", f"check_pow() = {not rp.pow_ok(want)} for header {want.hex()}, consensus says {rp.pow_ok(want)}")
+                tr.probe("header_obs_pow_" + str(rp.pow_ok(want)))
+            else:
+                tr.fault("header_edit_" + act)
+                if act == "nonce":
+                    m["nonce"] = r.getrandbits(32).to_bytes(4, "big")
+                    blk.nonce = m["nonce"]
+                elif act == "time":
+                    m["time"] = r.getrandbits(32)
+                    blk.timestamp = m["time"]
+                elif act == "version":
+                    m["version"] = r.choice([1, 2, 0x20000000, 0x7FFFFFFF, 0x80000000, 0xFFFFFFFF])
+                    blk.version = m["version"]
+                elif act == "root":
+                    m["root"] = r.getrandbits(256).to_bytes(32, "big")
+                    blk.merkle_root = m["root"]
+                elif act == "prev":
+                    m["prev"] = r.getrandbits(256).to_bytes(32, "big")
+                    blk.prev_block = m["prev"]
+                elif act == "bits":
+                    m["bits"] = r.choice([bytes.fromhex("ffff7f20"), bytes.fromhex("ffff001d"), bytes.fromhex("ffff7f1f")])
+                    blk.bits = m["bits"]
+        return
     if op == "getdata_layout":
         gd = GetDataMessage()
         r = plan_rng(step["pseed"], "gd")
@@ -1406,6 +1453,14 @@ def gen_step(ch, op, chain_cfg, tier, enabled, p_fault):
         s["t0"] = ch.randrange(1231006505, 2**32 - tw * 12)
         if ch.chance(0.3):
             s["lie"] = ch.randrange(1, 24)
+    elif op == "header_edits":
+        s["trigger"] = "-"
+        s["blk"] = ch.randrange(0, 16)
+        s["pseed"] = ch.randrange(1 << 30)
+        acts = []
+        for _ in range(ch.randrange(1, 7)):
+            acts.append("obs" if ch.chance(0.45) else ch.choice(["nonce", "nonce", "nonce", "time", "version", "root", "prev", "bits"]))
+        s["acts"] = acts + ["obs"]
     elif op == "getdata_layout":
         s["trigger"] = "-"
         s["n"] = ch.choice([0, 1, 0xFC, 0xFD, 0xFE, 300]) if ch.chance(0.5) else ch.randrange(0, 50)
@@ -1454,9 +1509,9 @@ def generate(ch, tier, prop):
         nonce = 2**64
     if prop == "C19":
         ops_pool = [("ping", 3), ("echo", 4), ("send_version", 2), ("getheaders", 2), ("filtered", 2), ("tx_accepted", 1), ("cfilters", 1), ("cfheaders", 1),
-                    ("cfcheckpt", 1), ("getdata_layout", 1), ("block", 1)]
+                    ("cfcheckpt", 1), ("getdata_layout", 1), ("block", 1), ("header_edits", 1)]
     else:
-        ops_pool = [("getheaders", 4), ("filtered", 6), ("block", 2), ("ping", 1), ("retarget", 3)]
+        ops_pool = [("getheaders", 4), ("filtered", 6), ("block", 2), ("ping", 1), ("retarget", 3), ("header_edits", 1)]
     steps = []
     if ch.chance(0.85):
         steps.append(gen_step(ch, "handshake", chain, tier, enabled, p_fault))
